@@ -110,6 +110,7 @@ pub fn worker_main(
       tier: tier.to_string(),
       inputs,
       keep_lines: false,
+      watchdog_s: spec.per_run_timeout_s,
     };
     let outs = iso::run_batch_robust(&job, per_run);
     for (k, o) in outs.into_iter().enumerate() {
@@ -138,6 +139,7 @@ pub fn recheck_main(prop: &str, tier: &str, base_seed: u64, n: u64) -> WorkerSum
         choices: None,
       }],
       keep_lines: false,
+      watchdog_s: spec.per_run_timeout_s,
     };
     for o in iso::run_batch_robust(&job, per_run) {
       sum.runs += 1;
@@ -178,6 +180,7 @@ fn eval(prop: &str, tier: &str, seed: u64, choices: &[u64], keep: bool, per_run:
       choices: Some(choices.to_vec()),
     }],
     keep_lines: keep,
+    watchdog_s: per_run.as_secs_f64(),
   };
   iso::run_batch_robust(&job, per_run).remove(0)
 }
@@ -592,6 +595,7 @@ pub fn run_main(a: &RunArgs) -> i32 {
         choices: None,
       }],
       keep_lines: true,
+      watchdog_s: spec.per_run_timeout_s,
     };
     if let Some(o) = iso::run_batch_robust(&job, per_run).into_iter().next() {
       let lines = o.lines.unwrap_or_default();
